@@ -295,7 +295,53 @@ func failureIdent(f *failure) string {
 }
 
 // propertyOfFailure attributes a candidate to properties.
+// alsoIDs: development aid (VERIF_ALSO=C02,C04): one exploration is judged for several properties
+// at once - the union of their harnesses is run and a failure owned by any of them is reported.
+// The registered commands never set it.
+func alsoIDs() []string {
+	if v := os.Getenv("VERIF_ALSO"); v != "" {
+		return strings.Split(v, ",")
+	}
+	return nil
+}
+
+func idMatches(id, want string) bool {
+	if id == want {
+		return true
+	}
+	for _, a := range alsoIDs() {
+		if id == a {
+			return true
+		}
+	}
+	return false
+}
+
 func failureServes(f *failure, id string) bool {
+	if failureServes1(f, id) {
+		return true
+	}
+	for _, a := range alsoIDs() {
+		if failureServes1(f, a) {
+			return true
+		}
+	}
+	return false
+}
+
+func harnessServes(name, id string) bool {
+	if harnessServes1(name, id) {
+		return true
+	}
+	for _, a := range alsoIDs() {
+		if harnessServes1(name, a) {
+			return true
+		}
+	}
+	return false
+}
+
+func failureServes1(f *failure, id string) bool {
 	switch f.Kind {
 	case "assert", "write":
 		head := f.Tag
@@ -313,7 +359,7 @@ func failureServes(f *failure, id string) bool {
 	}
 }
 
-func harnessServes(name, id string) bool {
+func harnessServes1(name, id string) bool {
 	// VerifH_C01C02_Foo or VerifH_C03_Foo
 	i := strings.Index(name, "VerifH_")
 	if i < 0 {
@@ -607,7 +653,7 @@ func cmdCheck(args []string) {
 		j := &job{f: f, group: f.Kind + "|" + f.Tag + "|" + f.Where}
 		ident := failureIdent(f)
 		for i := range known {
-			if known[i].Property == id && strings.Contains(ident, known[i].Match) {
+			if idMatches(known[i].Property, id) && strings.Contains(ident, known[i].Match) {
 				j.known = &known[i]
 				break
 			}
@@ -749,7 +795,7 @@ func cmdCheck(args []string) {
 	ev := evidence{PropertyID: id, Tier: *tier, Seed: seed, Level: level, Coverage: cov,
 		Assumptions: assumptionsFor(id, allNotes), WallS: time.Since(t0).Seconds(), Violations: len(violations)}
 	evDir := filepath.Join(verifRoot, "evidence")
-	if os.Getenv("VERIF_REPO") != "" {
+	if os.Getenv("VERIF_REPO") != "" || os.Getenv("VERIF_ALSO") != "" {
 		evDir = filepath.Join(verifRoot, "out", "alt")
 	}
 	os.MkdirAll(evDir, 0o755)
